@@ -38,8 +38,10 @@ def gen_action(r):
         return ('pos', str(r.choice([1, 2, 3, -1, -2, 0, 100, -100])))
     if k < 0.95:
         return (r.choice(SEL), None)
-    if k < 0.97:
+    if k < 0.965:
         return ('toggle-sort', None)
+    if k < 0.985:
+        return (r.choice(['exclude', 'exclude-multi']), None)
     return ('print', r.choice(['x', 'hello']))
 
 
@@ -96,6 +98,24 @@ def tmpl_kill_ring(r, lines):
     return steps
 
 
+def tmpl_track(r, lines):
+    # --track: the cursor stays on its item while the list is rebuilt around it (exclusions above and
+    # below it, query changes that keep it)
+    steps = [[('pos', str(r.randint(2, max(2, min(len(lines), 8)))))]]
+    for _ in range(r.randint(1, 3)):
+        k = r.random()
+        if k < 0.5:
+            # select something else and throw it out of the list
+            steps.append([(r.choice(['up', 'down', 'first']), None), ('toggle', None), (r.choice(['down', 'up', 'last']), None)])
+            steps.append([('exclude-multi', None)])
+        elif k < 0.75:
+            steps.append([('change-query', r.choice(['a', 'o', 'e', 'b', '']))])
+        else:
+            steps.append([(r.choice(['up', 'down']), None), ('exclude', None)])
+    steps.append([(r.choice(['up', 'down', 'toggle-sort']), None)])
+    return steps
+
+
 def tmpl_burst(r, lines):
     # several selections inside one action list: selection order must still be the order of the toggles
     acts = []
@@ -110,7 +130,7 @@ def gen_session(r, tier):
     lines = [r.choice(WORDS) + (r.choice(['', ' ', '/']) + r.choice(WORDS) if r.random() < 0.4 else '') for _ in range(n)]
     opts = dict(multi=r.choice([0, 0, 1, 2, 3, 1000]), cycle=int(r.random() < 0.35), layout=r.choice(['default', 'default', 'reverse', 'reverse-list']),
                 rows=r.choice([5, 6, 8, 12, 24]), cols=r.choice([40, 60, 80]), tac=int(r.random() < 0.2), nosort=int(r.random() < 0.15),
-                printq=int(r.random() < 0.25), exact=int(r.random() < 0.15))
+                printq=int(r.random() < 0.25), exact=int(r.random() < 0.15), track=int(r.random() < 0.2))
     nsteps = r.randint(3, 30 if tier == 'quick' else 120)
     steps = []
     for _ in range(nsteps):
@@ -118,7 +138,11 @@ def gen_session(r, tier):
         steps.append([gen_action(r) for _ in range(k)])
     k = r.random()
     if k < 0.5:
-        tmpl = r.choice([tmpl_selection, tmpl_selection, tmpl_kill_ring, tmpl_kill_ring, tmpl_burst])
+        tmpl = r.choice([tmpl_selection, tmpl_selection, tmpl_kill_ring, tmpl_kill_ring, tmpl_burst, tmpl_track, tmpl_track])
+        if tmpl is tmpl_track:
+            opts['track'] = 1
+            if len(lines) < 5:
+                lines += [r.choice(WORDS) for _ in range(6)]
         if tmpl is not tmpl_kill_ring and opts['multi'] == 0:
             opts['multi'] = r.choice([2, 3, 1000])
         if tmpl is tmpl_selection:
@@ -126,6 +150,10 @@ def gen_session(r, tier):
             if opts['multi'] < 3:
                 opts['multi'] = r.choice([3, 1000])
         steps = steps[:r.randint(0, 4)] + tmpl(r, lines) + steps[:r.randint(0, 3)]
+    if opts.get('track'):
+        # with --tac the tracked item is the one first seen while the input was still loading: loading
+        # dynamics are outside the session model
+        opts['tac'] = 0
     if not (steps and steps[-1] and steps[-1][0][0] in END):
         steps.append([(r.choice(END), None)])
     return dict(opts=opts, lines=lines, steps=steps)
@@ -148,6 +176,8 @@ def session_args(o):
         a.append('--print-query')
     if o['exact']:
         a.append('--exact')
+    if o.get('track'):
+        a.append('--track')
     return a
 
 
